@@ -107,6 +107,20 @@ def check(tier):
     if tier == "quick" and len(sprogs) > 5000:
         sprogs = rnd.sample(sprogs, 5000)
     res_s = l1check.run(rep, "C02-split", sprogs, dbset, {"rows", "ExecError", "Panic", "rejected-wellformed"})
+    # (g) null tests whose operand is an operator expression - written in place, and computed by `derive` and referred to by
+    # name (the back end inlines the definition: `(a > 0 || b > 0) == null` must not become `a > 0 OR b > 0 IS NULL`)
+    ca, cb, ck = col("a"), col("b"), col("k")
+    kids_g = [bin_("||", bin_(">", ca, lit(0)), bin_(">", cb, lit(0))), bin_("&&", bin_(">", ca, lit(0)), bin_(">", cb, lit(1))),
+              un("!", bin_(">", ca, lit(0))), bin_(">", ca, cb), bin_("==", ca, cb), bin_("??", ca, cb), bin_("+", ca, cb), bin_("*", ca, cb),
+              un("-", ca), bin_("||", bin_("==", ca, lit(None)), bin_(">", cb, lit(0))), case((bin_(">", ca, lit(0)), cb))]
+    gprogs = []
+    for i, kid in enumerate(kids_g):
+        for j, mk in enumerate((lambda x: bin_("==", x, lit(None)), lambda x: bin_("!=", x, lit(None)), lambda x: bin_("==", lit(None), x),
+                                lambda x: un("!", bin_("==", x, lit(None))), lambda x: bin_("&&", bin_("!=", x, lit(None)), bin_(">", ck, lit(0))))):
+            gprogs.append({"id": f"g{i}_{j}i", "decl": True, "steps": [from_("t"), select(item(mk(kid), "v"), item(ck))]})
+            gprogs.append({"id": f"g{i}_{j}s", "decl": True, "steps": [from_("t"), derive(item(kid, "zz")), select(item(mk(col("zz")), "v"), item(ck))]})
+            gprogs.append({"id": f"g{i}_{j}f", "decl": True, "steps": [from_("t"), derive(item(kid, "zz")), filter_(mk(col("zz"))), select(item(ck))]})
+    res_g = l1check.run(rep, "C02-null", gprogs, dbset, {"rows", "ExecError", "Panic", "rejected-wellformed"})
     # (f) grouping across dialects (spec/SqlShape.tla): the SQL expression of every (parent, child, side) tree, as the
     # dialect's parser reads it back, must be the tree's shape - no engine needed, all 12 dialects
     import sqlshape
@@ -169,6 +183,7 @@ def check(tier):
            "grouping_across_dialects": {"trees": shp["trees"], "dialects": 12, "templates_read_from_std_sql_prql": shp["templates"], "expressions_judged": shp["judged"],
                                         "not_judged": shp["skipped"], "rejections": len(shp["rejects"]), "selftest": "swapped operands rejected",
                                         "explanation": "spec/SqlShape.tla: Shape(op(l, r)) = Template(op)[l := Shape(l), r := Shape(r)] over the trees sqlparser's parser for the dialect reads back (parentheses dropped; sums, products, AND / OR chains compared up to re-grouping); every (parent, child, side) adjacency of 15 binary and 2 unary operators, literals incl. negative ones, null tests, depth-3 samples"},
+           "null_tests_over_operator_expressions": {"programs": len(gprogs), "accepted": res_g["accepted"], "rejected": res_g["rejected"], "not_judged": res_g["skipped"]},
            "split_over_derived_column": {"programs": len(sprogs), "accepted": res_s["accepted"], "rejected": res_s["rejected"], "not_judged": res_s["skipped"]},
            "samples": [trees[0], trees[len(trees) // 2], trees[-1], {"prql": res2["side"].get("r0", {}).get("src", "")[-200:], "sql": res2["side"].get("r0", {}).get("sql")}],
            "exhaustive": True,
